@@ -1,9 +1,11 @@
 #!/bin/sh
 # tools/run_all.sh [quick|thorough] [ids...] - run every registered check, print one line per property
-T=${1:-quick}; shift
-IDS=${*:-$(python3 -c "import json;print(' '.join(c['property_id'] for c in json.load(open('/verif/MANIFEST.json'))['checks']))")}
-cd /verif
+# NOEV=1 -> do not write evidence files (for background timing runs)
+T=${1:-quick}; [ $# -gt 0 ] && shift
+cd "$(dirname "$0")/.." || exit 2
+IDS=${*:-$(python3 -c "import json;print(' '.join(c['property_id'] for c in json.load(open('MANIFEST.json'))['checks']))")}
+EXTRA=""; [ -n "$NOEV" ] && EXTRA="--no-evidence"
 for p in $IDS; do
-  s=$(date +%s); ./check $p --tier $T > /tmp/all_$p.log 2>&1; rc=$?; e=$(date +%s)
-  echo "$p exit=$rc wall=$((e-s))s $(grep -c '^VIOLATION' /tmp/all_$p.log) violations, $(grep -c '^KNOWN-FINDING' /tmp/all_$p.log) known, $(grep -c '^INCONCLUSIVE' /tmp/all_$p.log) inconclusive"
+  s=$(date +%s); ./check $p --tier $T $EXTRA > /tmp/all_${T}_$p.log 2>&1; rc=$?; e=$(date +%s)
+  echo "$p exit=$rc wall=$((e-s))s $(grep -c '^VIOLATION' /tmp/all_${T}_$p.log) violations, $(grep -c '^KNOWN-FINDING' /tmp/all_${T}_$p.log) known, $(grep -c '^INCONCLUSIVE' /tmp/all_${T}_$p.log) inconclusive | $(tail -1 /tmp/all_${T}_$p.log | cut -c1-160)"
 done
